@@ -39,7 +39,7 @@ for prop in sorted(os.listdir(SRC)):
             "needs_to_manifest": agent.get("needs_to_manifest", ""),
             "demo_cmd": agent.get("demo_cmd", ""),
             "demo_features": agent.get("demo_features", ""),
-            "patch_base": base + " (patch.diff)" + ("; patch_head.diff is the same change ported by hand onto the tree that contains the D1 fix (d4357ad), because the original context was changed by that fix" if os.path.exists(os.path.join(out, "patch_head.diff")) else ""),
+            "patch_base": base + " (patch.diff)" + ("; patch_head.diff is the same change ported by hand onto the current /repo HEAD, because later commits there (the D1 fix d4357ad, hook H4 895d681) changed the original context" if os.path.exists(os.path.join(out, "patch_head.diff")) else ""),
             "confirmed_by_coordinator": {
                 "what_was_run": "scratch worktree of /repo at " + base + ": git apply patch.diff; cargo build --all-features; the pinned suite (cargo nextest run --workspace ... --test-threads 8 --offline); demo copied to tests/seed_demo.rs and run with the mutant, then without (git apply -R)",
                 "build_all_features": conf.get("build_all_features"),
